@@ -6,6 +6,8 @@
 package gocql
 
 import (
+	"math"
+	"math/big"
 	"time"
 	"bytes"
 	"fmt"
@@ -324,6 +326,12 @@ func TestVxC02RoundTrip(t *testing.T) {
 			}
 			ch := &vxCh{c: c.Choices}
 			info := vxTypeInfo(c.Type, byte(c.Proto))
+			if err := vxNullZeroCheck(c, info, k); err != nil {
+				return err
+			}
+			if err := vxNaNKeyCheck(c, info, k); err != nil {
+				return err
+			}
 			if err := vxStructShapesCheck(c, info, k); err != nil {
 				return err
 			}
@@ -455,6 +463,92 @@ func vxCrossedTagsCheck(c *vxValCase, info TypeInfo, k *vstats.Case) error {
 	return nil
 }
 
+// vxNullZeroCheck: "If value is a pointer to pointer, it is set to nil if the CQL value is null. Otherwise, nulls are
+// unmarshalled as zero value." (doc comment of Unmarshal) - for every documented destination type of a scalar type.
+func vxNullZeroCheck(c *vxValCase, info TypeInfo, k *vstats.Case) error {
+	switch c.Type.Kind {
+	case cqlspec.List, cqlspec.Set, cqlspec.Map, cqlspec.Tuple, cqlspec.UDT, cqlspec.Custom:
+		return nil
+	}
+	for _, gt := range vxScalarCandidates(c.Type.Kind, vxDst) {
+		if gt.Kind() == reflect.Interface {
+			continue
+		}
+		// a destination that was used before: whatever it holds, a null leaves the zero value
+		p := reflect.New(gt)
+		if !c.Value.Null {
+			if rv, err := vxToGo(c.Type, c.Value, gt, &vxCh{c: c.Choices}); err == nil && rv.Type() == gt {
+				p.Elem().Set(rv)
+			}
+		}
+		err, pan := vxSafeUnmarshal(info, nil, p.Interface())
+		if pan != nil {
+			return fmt.Errorf("Unmarshal(%v, null, *%v) panicked: %v", c.Type, gt, pan)
+		}
+		if err != nil {
+			return fmt.Errorf("Unmarshal(%v, null, *%v) = %v; documented: nulls are unmarshalled as zero value", c.Type, gt, err)
+		}
+		el := p.Elem()
+		zero := el.IsZero()
+		if !zero && (el.Kind() == reflect.Slice || el.Kind() == reflect.Map) && el.Len() == 0 {
+			zero = true
+		}
+		if !zero {
+			if bi, ok := el.Interface().(big.Int); ok && bi.Sign() == 0 {
+				zero = true
+			}
+		}
+		if !zero && el.Kind() == reflect.String {
+			zero = true // a number read into a string: the digits of zero
+		}
+		if !zero {
+			return fmt.Errorf("Unmarshal(%v, null, *%v) left %v in the destination; documented: nulls are unmarshalled as zero value", c.Type, gt, el.Interface())
+		}
+	}
+	k.Class("null into every documented scalar destination")
+	return nil
+}
+
+// vxNaNKeyCheck: a Go map can hold NaN keys (every NaN is a key of its own, and no lookup finds it again); writing
+// such a map as a CQL map with float / double keys either fails with an error or writes every entry.
+func vxNaNKeyCheck(c *vxValCase, info TypeInfo, k *vstats.Case) error {
+	if c.Type.Kind != cqlspec.Map || (c.Type.Elems[0].Kind != cqlspec.Double && c.Type.Elems[0].Kind != cqlspec.Float) || c.Value.Null || len(c.Value.Elems) < 2 {
+		return nil
+	}
+	vt := vxPick(c.Type.Elems[1], []cqlspec.Value{c.Value.Elems[1]}, &vxCh{c: c.Choices}, vxSrc, false)
+	val, err := vxToGo(c.Type.Elems[1], c.Value.Elems[1], vt, &vxCh{c: c.Choices})
+	if err != nil {
+		return nil
+	}
+	kt := reflect.TypeOf(float64(0))
+	nan := reflect.ValueOf(math.NaN())
+	if c.Type.Elems[0].Kind == cqlspec.Float {
+		kt = reflect.TypeOf(float32(0))
+		nan = reflect.ValueOf(float32(math.NaN()))
+	}
+	m := reflect.MakeMap(reflect.MapOf(kt, vt))
+	m.SetMapIndex(nan, val)
+	m.SetMapIndex(nan, val) // a second entry: NaN != NaN
+	out, merr, pan := vxSafeMarshal(info, m.Interface())
+	if pan != nil {
+		return fmt.Errorf("Marshal(%v, map with two NaN keys) panicked: %v", c.Type, pan)
+	}
+	if merr != nil {
+		return nil
+	}
+	k.Class("map with NaN keys written")
+	dv, derr := cqlspec.Decode(c.Type, out, c.Proto)
+	if derr != nil || len(dv.Elems) != 4 {
+		return fmt.Errorf("Marshal(%v, map with two NaN keys) = %x: decodes to %d key/value cells (%v), want 4", c.Type, out, len(dv.Elems), derr)
+	}
+	for i := 1; i < 4; i += 2 {
+		if !cqlspec.Equal(c.Type.Elems[1], vxCanon(c.Type.Elems[1], dv.Elems[i], c.Proto), vxCanon(c.Type.Elems[1], c.Value.Elems[1], c.Proto)) {
+			return fmt.Errorf("Marshal(%v, map with two NaN keys) = %x: the value of entry %d is not the one that was put there", c.Type, out, i/2)
+		}
+	}
+	return nil
+}
+
 // VxEmbInner is embedded in vxEmbOuter: its field Af is a field of vxEmbOuter for every purpose of the language.
 type VxEmbInner struct {
 	Af interface{}
@@ -463,6 +557,13 @@ type VxEmbInner struct {
 // vxEmbOuter: the UDT field Af is a field promoted from an embedded struct.
 type vxEmbOuter struct {
 	VxEmbInner
+	Bf interface{}
+}
+
+// vxEmbPtrOuter: the embedded struct is held by a pointer, which may be nil - then the struct has no field Af to
+// write (null) or to read into (skipped, as for every UDT field the destination does not declare).
+type vxEmbPtrOuter struct {
+	*VxEmbInner
 	Bf interface{}
 }
 
@@ -490,6 +591,19 @@ func vxStructShapesCheck(c *vxValCase, info TypeInfo, k *vstats.Case) error {
 			return nil
 		}
 		vals[i] = rv.Interface()
+	}
+	// a nil embedded pointer: no panic on either route
+	if out, merr, pan := vxSafeMarshal(info, vxEmbPtrOuter{Bf: vals[1]}); pan != nil {
+		return fmt.Errorf("Marshal(%v, struct{*VxEmbInner (nil); Bf}) panicked: %v", c.Type, pan)
+	} else if merr == nil {
+		k.Class("udt from a struct with a nil embedded pointer")
+		dv, derr := cqlspec.Decode(c.Type, out, c.Proto)
+		if derr != nil || len(dv.Elems) != 2 || !dv.Elems[0].Null || !cqlspec.Equal(c.Type.Elems[1], vxCanon(c.Type.Elems[1], dv.Elems[1], c.Proto), vxCanon(c.Type.Elems[1], c.Value.Elems[1], c.Proto)) {
+			return fmt.Errorf("Marshal(%v, struct{*VxEmbInner (nil); Bf: %+v}) = %x, want Af null and Bf as given (%v)", c.Type, vals[1], out, derr)
+		}
+	}
+	if _, pan := vxSafeUnmarshal(info, cqlspec.Encode(c.Type, c.Value, c.Proto), &vxEmbPtrOuter{}); pan != nil {
+		return fmt.Errorf("Unmarshal(%v, *struct{*VxEmbInner (nil); Bf}) panicked: %v", c.Type, pan)
 	}
 	want := cqlspec.Encode(c.Type, c.Value, c.Proto)
 	for _, sh := range []struct {
@@ -567,6 +681,12 @@ func TestVxC12Encode(t *testing.T) {
 			}
 			ch := &vxCh{c: c.Choices}
 			info := vxTypeInfo(c.Type, byte(c.Proto))
+			if err := vxNullZeroCheck(c, info, k); err != nil {
+				return err
+			}
+			if err := vxNaNKeyCheck(c, info, k); err != nil {
+				return err
+			}
 			if err := vxStructShapesCheck(c, info, k); err != nil {
 				return err
 			}
